@@ -1,3 +1,5 @@
+//go:build !passthrough
+
 // Package simtime is an API-compatible replacement of package time running on
 // the simulator's virtual clock.
 package simtime
